@@ -264,11 +264,11 @@ NSHARDS = 16
 
 
 def shards(tier, seed):
-    bound = 7 if tier == "quick" else 9
-    out = [{"name": f"enum{i}", "kind": "enum", "i": i, "bound": bound, "budget_s": 120 if tier == "quick" else 1200}
+    bound = 7 if tier == "quick" else 10
+    out = [{"name": f"enum{i}", "kind": "enum", "i": i, "bound": bound, "budget_s": 120 if tier == "quick" else 3600}
            for i in range(NSHARDS)]
-    out += [{"name": f"rand{i}", "kind": "rand", "i": i, "count": 15 if tier == "quick" else 700,
-             "budget_s": 60 if tier == "quick" else 600} for i in range(NSHARDS)]
+    out += [{"name": f"rand{i}", "kind": "rand", "i": i, "count": 15 if tier == "quick" else 6000,
+             "budget_s": 60 if tier == "quick" else 3600} for i in range(NSHARDS)]
     return out
 
 
